@@ -256,6 +256,106 @@ theorem encUncompressed_eq (p : Path) (encPx : α → List β) {bufPx : Nat} (hb
     rw [rowsWritesAux_flatten encPx hb img 0 [] (by omega) (fun _ => rfl)]; rfl
   | direct => rfl
 
+/-! ### the write sizes are those of `EncLen.lean` (C10) -/
+
+theorem encPixels_length (encPx : α → List β) {encBpp : Nat} (hl : ∀ x, (encPx x).length = encBpp)
+    (l : List α) : (encPixels encPx l).length = l.length * encBpp := by
+  unfold encPixels
+  induction l with
+  | nil => simp
+  | cons a t ih => rw [List.flatMap_cons, List.length_append, ih, hl, List.length_cons,
+      Nat.succ_mul, Nat.add_comm]
+
+theorem contigWrites_lengths (encPx : α → List β) {encBpp bufPx : Nat}
+    (hl : ∀ x, (encPx x).length = encBpp) (hb : 0 < bufPx) (img : List (List α)) :
+    (contigWrites encPx bufPx img).map List.length =
+      chunksContig img.flatten.length bufPx encBpp := by
+  unfold contigWrites chunksContig
+  rw [← chunks_lengths hb img.flatten _ (Nat.le_refl _), List.map_map, List.map_map]
+  apply List.map_congr_left
+  intro c _
+  exact encPixels_length encPx hl c
+
+theorem fillRowD_lengths (encPx : α → List β) {encBpp : Nat} (hl : ∀ x, (encPx x).length = encBpp)
+    (bufPx : Nat) :
+    ∀ (fuel : Nat) (row : List α) (fill : Nat) (buf : List β), buf.length = fill * encBpp →
+      fill ≤ bufPx →
+      (fillRowD encPx bufPx fuel row fill buf).1.map List.length =
+        (fillRow bufPx fuel row.length fill).1.map (· * encBpp) ∧
+      (fillRowD encPx bufPx fuel row fill buf).2.1 = (fillRow bufPx fuel row.length fill).2 ∧
+      (fillRowD encPx bufPx fuel row fill buf).2.2.length =
+        (fillRow bufPx fuel row.length fill).2 * encBpp := by
+  intro fuel
+  induction fuel with
+  | zero => intro row fill buf hbuf _; simp [fillRowD, fillRow, hbuf]
+  | succ fuel ih =>
+    intro row fill buf hbuf hfill
+    unfold fillRowD fillRow
+    by_cases hr : row = []
+    · subst hr; simp [hbuf]
+    · have hpos : 0 < row.length := List.length_pos_iff.mpr hr
+      have hl0 : ¬ row.length = 0 := by omega
+      rw [if_neg hr, if_neg hl0]
+      by_cases hf : fill = bufPx
+      · rw [if_pos hf, if_pos hf]
+        have h := ih (row.drop (min row.length bufPx)) (min row.length bufPx)
+          (encPixels encPx (row.take (min row.length bufPx)))
+          (by rw [encPixels_length encPx hl, List.length_take]; congr 1; omega) (by omega)
+        rw [List.length_drop] at h
+        simp only [List.map_cons]
+        refine ⟨?_, h.2.1, h.2.2⟩
+        rw [h.1, hbuf, hf]
+      · rw [if_neg hf, if_neg hf]
+        have h := ih (row.drop (min row.length (bufPx - fill)))
+          (fill + min row.length (bufPx - fill))
+          (buf ++ encPixels encPx (row.take (min row.length (bufPx - fill))))
+          (by rw [List.length_append, encPixels_length encPx hl, List.length_take, hbuf,
+                Nat.add_mul]; congr 2; omega) (by omega)
+        rw [List.length_drop] at h
+        exact h
+
+theorem rowsWritesAux_lengths (encPx : α → List β) {encBpp bufPx w : Nat}
+    (hl : ∀ x, (encPx x).length = encBpp) (hb : 1 ≤ bufPx) :
+    ∀ (img : List (List α)) (fill : Nat) (buf : List β), (∀ r ∈ img, r.length = w) →
+      buf.length = fill * encBpp → fill ≤ bufPx →
+      (rowsWritesAux encPx bufPx img fill buf).map List.length =
+        (chunksRowsAux bufPx w img.length fill).map (· * encBpp) := by
+  intro img
+  induction img with
+  | nil =>
+    intro fill buf _ hbuf _
+    unfold rowsWritesAux chunksRowsAux
+    by_cases h0 : fill > 0
+    · simp [h0, hbuf]
+    · simp [h0]
+  | cons row rest ih =>
+    intro fill buf hu hbuf hfill
+    have hrw : row.length = w := hu row (by simp)
+    rw [List.length_cons]
+    unfold rowsWritesAux chunksRowsAux
+    obtain ⟨h1, h2, h3⟩ := fillRowD_lengths encPx hl bufPx (row.length + 1) row fill buf hbuf hfill
+    have hle := (fillRow_sum bufPx hb (row.length + 1) row.length fill (by omega) hfill).2
+    simp only [List.map_append]
+    rw [h1, ih _ _ (fun r hr => hu r (List.mem_cons_of_mem _ hr)) (by rw [h3, h2]) (by rw [h2]; exact hle),
+      h2, hrw]
+
+theorem flatten_length_uniform {w : Nat} (img : List (List α)) (hu : ∀ r ∈ img, r.length = w) :
+    img.flatten.length = w * img.length := by
+  induction img with
+  | nil => simp
+  | cons r t ih =>
+    rw [List.flatten_cons, List.length_append, hu r (by simp),
+      ih (fun x hx => hu x (List.mem_cons_of_mem _ hx)), List.length_cons, Nat.mul_succ,
+      Nat.add_comm]
+
+theorem rowGroupBuffers_length (bh : Nat) (img : List (List α)) :
+    (rowGroupBuffers bh img).length = rowGroups img.length bh := by
+  unfold rowGroupBuffers rowGroups
+  simp only [List.length_append, List.length_map, List.length_range]
+  by_cases h : img.length % bh > 0
+  · rw [if_pos h, if_pos h]; rfl
+  · rw [if_neg h, if_neg h]; rfl
+
 /-! ## (b) sub-sampled -/
 
 theorem padLast_of_length_ge {n : Nat} {l : List α} (h : n ≤ l.length) : padLast n l = l := by
